@@ -196,6 +196,9 @@ void h_undoinfo(void) {
     Position& q = setup(from, to, prom, ui);
     bool epCap, castleMove; pseudoLegal(gP, from, to, prom, epCap, castleMove);
     bool moverWhite = gP.wtm;
+    // P is reachable by play: an en-passant square lies behind a pawn that has just made a double push, so the push's origin square is empty
+    // (the FEN-acceptance domain of the oracle does not demand this; genMoves rightly does)
+    if (gP.ep != -1) ASSUME(pieceAt(gP, gP.ep + (moverWhite ? 8 : -8)) == 0);
     Move m(Square(from), Square(to), prom);
     int movingPiece = prom ? (moverWhite ? Piece::WPAWN : Piece::BPAWN) : q.getPiece(Square(to));     // as genMoves computes it
     int captured = ui.capturedPiece;
